@@ -8,6 +8,6 @@ From SV Require Import Base.Base IR.State IR.NS IR.Ops Hier.Paths Hier.Enum Hier
 Extraction Language OCaml.
 Extraction "query_model.ml" value_matches is_pattern_absolute glob_match escape_brackets fnmatchcase
   parse_re rmatch regex_escape regex_prefix re_escape_str lower
-  Filter.scan_lookup lookup_lower lookup_none run_query run_netlists run_hier
+  Filter.scan_lookup lookup_lower run_query run_netlists run_hier
   State.init Ops.step
   query_instances query_definitions query_libraries query_ports query_netlists query_pins query_cables query_wires.
